@@ -1700,6 +1700,8 @@ class Exec:
                     continue
                 st.assume(self.goal_of(g))
         self.oblige(st, f"call@L{getattr(node, 'lineno', 0)}/{name}/canary", z3.BoolVal(False), node, kind="canary")
+        if ret is not None:
+            st.ghost["ret_" + fi.node.name] = ret       # ghost: the latest result of this callee (a witness postconditions may name)
         res.append(Out("val", ret, st))
         return res
 
@@ -1807,6 +1809,7 @@ class Exec:
             raise Unsupported(f"no contract for {qualname}" + (f" @ {recv}" if recv else ""))
         self.cur_fn = qualname.split("acnportal.")[-1] + (f"@{recv}" if recv else "")
         self.cur_views = c.extra.get("callee_views", {})
+        self.cur_canonical_filters = bool(c.extra.get("canonical_filters"))
         self.cur_props = tuple(props)
         n0 = len(self.obls)
         st, bound = self.initial_state(c, fi)
